@@ -524,6 +524,15 @@ func compareQPRAgg(a simenv.AggReq, got *seq.AggregatableSamples, want *model.Ag
 	// the values handed to the API user: one per bin, computed by the proxy from the merged summaries
 	fn := map[string]seq.AggFunc{"count": seq.AggFuncCount, "sum": seq.AggFuncSum, "min": seq.AggFuncMin, "max": seq.AggFuncMax, "avg": seq.AggFuncAvg, "quantile": seq.AggFuncQuantile, "unique": seq.AggFuncUnique}
 	res := got.Aggregate(seq.AggregateArgs{Func: fn[a.Func], Quantiles: a.Quantiles})
+	named := map[string]bool{}
+	for _, b := range res.Buckets {
+		named[b.Name] = true
+	}
+	for _, k := range sortedBinNames(want) {
+		if !named[k] {
+			return fmt.Sprintf("bin %q is in the merged summaries but not among the %d values handed to the API user", k, len(res.Buckets))
+		}
+	}
 	for _, b := range res.Buckets {
 		wb := want.Bins[b.Name]
 		if wb == nil {
@@ -638,4 +647,13 @@ func GenCluster(property string, seed uint64, tier Tier) *ClusterCase {
 	}
 	c.PageSizes = []int{g.r.Range(1, 4), g.r.Range(2, 9), 1}
 	return c
+}
+
+func sortedBinNames(want *model.AggExpect) []string {
+	out := make([]string, 0, len(want.Bins))
+	for k := range want.Bins {
+		out = append(out, k)
+	}
+	sort.Strings(out)
+	return out
 }
